@@ -751,6 +751,8 @@ def prepare(cases, nemb):
         c = dict(c)
         # the populous / expensive families take two embeddings per object even in thorough
         c["nemb"] = min(nemb, 2) if c["prod"] in ("die", "alloc", "rect_netlist", "legal") else nemb
+        if c["prod"].startswith("floorset") and c["src"].get("dens"):
+            c["nemb"] = max(1, nemb // 2)       # (every unit gives its own expected weights: no two runs share an event)
         c["embs"] = embeddings_for(c, k)
         out.append(c)
     return out
